@@ -394,10 +394,14 @@ class Check:
             groups: dict = {}
             for v in self.violations:
                 k = json.dumps(v["sig"], sort_keys=True)
-                g = groups.setdefault(k, {"n": 0, "what": v["what"]})
+                g = groups.setdefault(k, {"n": 0, "what": v["what"], "replay": v.get("replay")})
                 g["n"] += 1
+                if g["replay"] is None:
+                    g["replay"] = v.get("replay")
             for k, g in sorted(groups.items(), key=lambda kv: -kv[1]["n"]):
                 print("SIG %4d× %s :: %s" % (g["n"], k, g["what"][:400]))
+                if os.environ.get("VERIF_SIGS") == "2" and g["replay"] is not None:
+                    print("    REPLAY " + json.dumps(g["replay"], default=repr)[:1500])
         print("%s %s tier=%s seed=%d: obligations %d/%d, evaluations %d (distinct non-trivial %d), broken %d, violations %d, known findings %d, %.1fs"
               % ("OK" if rc == 0 else "FAIL", self.prop, self.tier, self.seed, n_ok, n_ob, self.evaluations, len(self.distinct),
                  len(self.broken), len(self.violations), len(self.known_seen), wall))
